@@ -47,7 +47,7 @@ def check(repo, tier):
     run.rule('D1', 'environment / micro-system typing: every contraction pairs a ket index with an operator column, a conjugated bra index with an operator '
              'row, equal bonds with equal conjugation; the right-hand side has the row type of the micro matrix; reshapes respect leg boundaries; the '
              'solved core has the layout (left bond, site mode, 1, right bond) and the returned train chains')
-    run.rule('D2', 'slot typestate: no environment slot is read before it is written (None operand) or after a core it was computed from has been replaced')
+    run.rule('D2', 'slot typestate: no environment slot is read before it is written (None operand) or after a core it was computed from has been replaced; no array is read after a destructive library flag (overwrite_a / overwrite_b) let a routine overwrite it')
     run.rule('D3', 'sweep coverage: per repeat the micro systems are solved for cores 0..d-2 then d-1..0 (MALS: pairs 0..d-3 then d-2..0); at return cores 1..d-1 are right-orthonormal factors')
     run.rule('D4', 'sibling micro-solvers: solver=\'lu\' solves the same systems as solver=\'solve\' (trans=0, same operands, same sequence)')
     run.rule('D5', 'ranks: ALS never raises a rank (economic QR/RQ facts), MALS bonds are capped by max_rank; the result satisfies the TT class invariant with the dimensions of the guess')
@@ -76,7 +76,7 @@ def check(repo, tier):
                         continue
                     run.oblige('D2', (entry, scen, 'no exception'), True)
                     # D2 stale reads
-                    st = sc.events('stale-read')
+                    st = sc.events('stale-read') + sc.events('use-after-destroy')
                     run.oblige('D2', (entry, scen, 'stale'), not st)
                     for e in st:
                         where, cons, f, ln = l2rules.ev_where(repo, e)
